@@ -480,7 +480,135 @@ def replay_c20(d, case):
     return False, 'accepted and read consistently'
 
 
-HANDLERS = {'c01': replay_c01, 'c15_list': replay_c15_list, 'tool': replay_tool, 'c20': replay_c20}
+def replay_c02(d, case):
+    from amr_kitchen import PlotfileCooker
+    limit, header_only, maxmins = case['args']
+    E = case['expected']
+    plt = os.path.join(d, 'plt')
+    if header_only:
+        import shutil
+        for l in range(len(E['boxes'])):
+            shutil.rmtree(os.path.join(plt, 'Level_%d' % l), ignore_errors=True)
+    nlev_all = len(E['boxes'])
+    try:
+        pck = PlotfileCooker(plt, limit_level=limit, header_only=header_only, maxmins=maxmins)
+    except Exception as e:
+        if limit is not None and limit > nlev_all - 1 and isinstance(e, ValueError):
+            return False, 'refused with ValueError as required'
+        return True, 'raised %s: %s' % (type(e).__name__, e)
+    if limit is not None and limit > nlev_all - 1:
+        return True, 'a limit above the finest level was accepted'
+    nlev = nlev_all if limit is None else limit + 1
+
+    def close(a, b):
+        return abs(float(a) - float(b)) <= 1e-12 * max(1.0, abs(float(b)))
+    if list(pck.fields.values()) != list(range(len(E['fields']))):
+        return True, 'field indices %s' % (pck.fields,)
+    if pck.ndims != E['ndims'] or pck.limit_level != nlev - 1 or not close(pck.time, E['time']):
+        return True, 'ndims/limit_level/time: %s %s %s' % (pck.ndims, pck.limit_level, pck.time)
+    for dd in range(E['ndims']):
+        if not close(pck.geo_low[dd], E['lo'][dd]) or not close(pck.geo_high[dd], E['hi'][dd]):
+            return True, 'domain bounds %s %s' % (pck.geo_low, pck.geo_high)
+    if len(pck.boxes) != nlev or len(pck.grids) != nlev:
+        return True, 'boxes/grids for %d/%d levels, expected %d' % (len(pck.boxes), len(pck.grids), nlev)
+    for l in range(nlev):
+        if [int(x) for x in pck.grid_sizes[l]] != E['ncell'][l]:
+            return True, 'grid_sizes[%d] %s' % (l, pck.grid_sizes[l])
+        for dd in range(E['ndims']):
+            if not close(pck.dx[l][dd], E['dx'][l][dd]):
+                return True, 'dx[%d][%d] = %r, expected %r' % (l, dd, pck.dx[l][dd], E['dx'][l][dd])
+            g = pck.grids[l][dd]
+            if len(g) != E['ncell'][l][dd]:
+                return True, 'grids[%d][%d] has %d points' % (l, dd, len(g))
+            for i in range(len(g)):
+                if not close(g[i], E['lo'][dd] + (i + 0.5) * E['dx'][l][dd]):
+                    return True, 'grids[%d][%d][%d] = %r' % (l, dd, i, g[i])
+        if len(pck.boxes[l]) != len(E['boxes'][l]):
+            return True, 'level %d has %d boxes' % (l, len(pck.boxes[l]))
+        for b, (lo_, hi_) in enumerate(E['boxes'][l]):
+            for dd in range(E['ndims']):
+                e0 = E['lo'][dd] + lo_[dd] * E['dx'][l][dd]
+                e1 = E['lo'][dd] + (hi_[dd] + 1) * E['dx'][l][dd]
+                if not close(pck.boxes[l][b][dd][0], e0) or not close(pck.boxes[l][b][dd][1], e1):
+                    return True, 'boxes[%d][%d][%d] = %s, expected %s' % (l, b, dd, pck.boxes[l][b][dd], (e0, e1))
+    if header_only:
+        return False, 'global metadata equal'
+    if len(pck.cells) != nlev:
+        return True, 'cells for %d levels' % len(pck.cells)
+    keys = list(pck.fields.keys())
+    for l in range(nlev):
+        c = pck.cells[l]
+        for b, (lo_, hi_) in enumerate(E['boxes'][l]):
+            if [int(x) for x in c['indexes'][b][0]] != lo_ or [int(x) for x in c['indexes'][b][1]] != hi_:
+                return True, 'cells[%d][indexes][%d] = %s' % (l, b, c['indexes'][b])
+            fname, off = E['offsets'][l][b]
+            if os.path.basename(c['files'][b]) != fname or int(c['offsets'][b]) != off:
+                return True, 'cells[%d] file/offset of box %d = %s %s, expected %s %s' % (l, b, c['files'][b], c['offsets'][b], fname, off)
+            if maxmins:
+                for f in range(len(keys)):
+                    if not close(c['mins'][keys[f]][b], E['mins'][l][b][f]) or not close(c['maxs'][keys[f]][b], E['maxs'][l][b][f]):
+                        return True, 'cells[%d] min/max of field %d box %d' % (l, f, b)
+    return False, 'metadata equal'
+
+
+def replay_c08(d, case):
+    import contextlib, io
+    from amr_kitchen.mandoline.mandoline import Mandoline
+    fields, limit, serial = case['args']
+    with contextlib.redirect_stdout(io.StringIO()):
+        try:
+            out = Mandoline(os.path.join(d, 'plt'), fields=list(fields), limit_level=limit, serial=serial, verbose=0).slice(fformat='return')
+        except Exception as e:
+            return True, 'raised %s: %s' % (type(e).__name__, e)
+    for attempt in range(2):
+        for name, h in case['expected'].items():
+            if name not in out or not bit_equal(out[name], _arr_from_hex(h)):
+                return True, 'output[%r] differs from the covering grid' % name
+    if case.get('grid_level') is not None:
+        if 'grid_level' not in out or not np.array_equal(np.asarray(out['grid_level'], dtype=float), np.asarray(case['grid_level'], dtype=float)):
+            return True, 'grid_level differs'
+    for k in ('x', 'y'):
+        if not np.allclose(out[k], case[k], rtol=1e-12, atol=0):
+            return True, '%s coordinates differ' % k
+    return False, 'covering grid equal'
+
+
+def replay_c10(d, case):
+    import contextlib, io, sys
+    from amr_kitchen.whip import cli
+    variable, dtype, limit, outfile = case['args']
+    argv = ['whip', '--variable', variable, '--nochecks', 'plt00010']
+    if dtype is not None:
+        argv += ['--dtype', dtype]
+    if limit is not None:
+        argv += ['--limit_level', str(limit)]
+    if outfile is not None:
+        argv += ['--outfile', outfile]
+    os.chdir(d)
+    old = sys.argv
+    sys.argv = argv
+    try:
+        with contextlib.redirect_stdout(io.StringIO()), contextlib.redirect_stderr(io.StringIO()):
+            cli.main()
+    except SystemExit as e:
+        return True, 'exited with %r' % (e.code,)
+    except Exception as e:
+        return True, 'raised %s: %s' % (type(e).__name__, e)
+    finally:
+        sys.argv = old
+    name = (outfile if outfile is not None else '%s_ugrid_00010' % variable) + '.npy'
+    if not os.path.exists(name):
+        return True, 'no array saved at %s' % name
+    got = np.load(name)
+    exp = _arr_from_hex(case['expected'])
+    if got.shape != exp.shape:
+        return True, 'saved array has shape %s, expected %s' % (got.shape, exp.shape)
+    if not bit_equal(got.astype(float), exp.astype(dtype or 'float64').astype(float)):
+        return True, 'saved array differs from the covering grid'
+    return False, 'covering grid equal'
+
+
+HANDLERS = {'c10': replay_c10, 'c08': replay_c08, 'c02': replay_c02, 'c01': replay_c01, 'c15_list': replay_c15_list, 'tool': replay_tool, 'c20': replay_c20}
 
 
 def register(name):
